@@ -1768,13 +1768,11 @@ Proof.
   intros ds st H Hst. unfold canon_digits in H. apply andb_true_iff in H. destruct H as [Hd Hh].
   destruct ds as [|c r]; [discriminate Hh|]. pose proof Hd as Hd'. cbn [all_digits forallb] in Hd'. apply andb_true_iff in Hd'.
   destruct Hd' as [Hc Hr]. pose proof (isd_spec c Hc) as Hc'. cbn [fold_left].
-  assert (Hs : num_step st c = if c =? 48 then 2 else 3).
+  assert (Hs : num_step st c = 3).
   { destruct Hst as [-> | ->]; unfold num_step.
-    - replace (c =? 45) with false by (symmetry; apply N.eqb_neq; lia). rewrite Hc. destruct (c =? 48); reflexivity.
-    - rewrite Hc. destruct (c =? 48); reflexivity. }
-  rewrite Hs. destruct (c =? 48) eqn:E.
-  - destruct r as [|c2 r']; [reflexivity|]. discriminate Hh.
-  - rewrite num_step_3 by exact Hr. reflexivity.
+    - replace (c =? 45) with false by (symmetry; apply N.eqb_neq; lia). rewrite Hc. reflexivity.
+    - rewrite Hc. reflexivity. }
+  rewrite Hs. rewrite num_step_3 by exact Hr. reflexivity.
 Qed.
 Lemma canon_digits_numtok : forall ds, canon_digits ds = true -> numtok ds = true /\ numtok (45 :: ds) = true.
 Proof.
